@@ -691,11 +691,54 @@ func (fr *frame) modelled(key string, args []TV, resT types.Type, st *State) (TV
 	return TV{}, false
 }
 
+// calleeKeyOf: the contract key a call resolves to statically ("" if unknown).
+func (s *Sym) calleeKeyOf(c *ssa.CallCommon) string {
+	if c.IsInvoke() {
+		return IfaceMethodKey(c.Value.Type(), c.Method)
+	}
+	if callee := c.StaticCallee(); callee != nil {
+		return FuncKey(callee)
+	}
+	return ""
+}
+
+// callOrdinal: position (1-based, source order) of a call among the calls of the same
+// callee in its function.
+func (fr *frame) callOrdinal(site *ssa.Call, callee string) int {
+	n := 1
+	for _, b := range site.Parent().Blocks {
+		for _, in := range b.Instrs {
+			c, ok := in.(*ssa.Call)
+			if !ok || c == site {
+				continue
+			}
+			k := fr.s.calleeKeyOf(c.Common())
+			if !(k == callee || strings.HasSuffix(k, "."+callee) || strings.HasSuffix(k, "/"+callee)) {
+				continue
+			}
+			if c.Pos() < site.Pos() {
+				n++
+			}
+		}
+	}
+	return n
+}
+
 // atAsserts emits the obligations of `at <callee> assert` clauses matching this call.
 func (fr *frame) atAsserts(key string, site *ssa.Call, args []TV, c *ssa.CallCommon, st *State) {
 	s := fr.s
 	for _, at := range s.FC.Ats {
-		if !(key == at.Callee || strings.HasSuffix(key, "."+at.Callee) || strings.HasSuffix(key, "/"+at.Callee)) {
+		callee, ordinal := at.Callee, 0
+		if i := strings.LastIndex(callee, "#"); i > 0 {
+			// <callee>#N: only the N-th call of that callee in source order
+			if n, err := strconv.Atoi(callee[i+1:]); err == nil {
+				callee, ordinal = callee[:i], n
+			}
+		}
+		if !(key == callee || strings.HasSuffix(key, "."+callee) || strings.HasSuffix(key, "/"+callee)) {
+			continue
+		}
+		if ordinal > 0 && site != nil && fr.callOrdinal(site, callee) != ordinal {
 			continue
 		}
 		env := fr.env0.child()
@@ -732,13 +775,22 @@ func (fr *frame) atAsserts(key string, site *ssa.Call, args []TV, c *ssa.CallCom
 			}
 			return fr.lookupLocalBefore(name, blk, site, st)
 		}
+		// a source variable the assertion names but that has no value yet at this call
+		// (the call precedes its assignment): the assertion cannot hold at this site
+		prevErr := s.Err
 		g := s.evalBool(env, at.C.E)
+		src := at.C.Src
+		if prevErr == nil && s.Err != nil && strings.Contains(s.Err.Error(), "unknown identifier") {
+			src = src + "   [" + s.Err.Error() + ": not assigned before this call]"
+			s.Err = nil
+			g = "false"
+		}
 		top := fr
 		for top.parent != nil {
 			top = top.parent
 		}
 		top.atCount[at.C.Label]++
-		s.addObl(&Obligation{Name: fmt.Sprintf("%s#at:%s:%s@%d", shortKey(FuncKey(s.Top)), at.Callee, at.C.Label, top.atCount[at.C.Label]), Props: fr.propsOf(at.C), Kind: "call-site-assert", Label: at.C.Label, Goal: fmt.Sprintf("(=> %s %s)", st.Guard, g), Src: at.C.Src})
+		s.addObl(&Obligation{Name: fmt.Sprintf("%s#at:%s:%s@%d", shortKey(FuncKey(s.Top)), at.Callee, at.C.Label, top.atCount[at.C.Label]), Props: fr.propsOf(at.C), Kind: "call-site-assert", Label: at.C.Label, Goal: fmt.Sprintf("(=> %s %s)", st.Guard, g), Src: src})
 		top.atHit[at.C.Label] = true
 	}
 }
